@@ -98,34 +98,54 @@ class Ctx:
         return res
 
     # ------------------------------------------------------------------ conformance
-    def conform(self, scen_text, tag, variant="plain", crash_props=None, call_timeout=20, chunk=4000, env=None, spec="Trace"):
-        """run scenarios (text with 'scenario <id>' blocks) on the driver, validate, collect verdicts"""
+    def conform(self, scen_text, tag, variant="plain", crash_props=None, call_timeout=20, chunk=4000, env=None, spec="Trace", inject=None, par=NCPU):
+        """run scenarios (text with 'scenario <id>' blocks) on the driver, validate, collect verdicts.
+        The scenario blocks are split into chunks that are executed and validated in parallel."""
+        from concurrent.futures import ThreadPoolExecutor
         b = self.build(variant)
+        pipeline.ensure_java()
         blocks = pipeline.split_scenarios(scen_text)
+        if not blocks:
+            return
         byid = {bid: txt for bid, txt in blocks}
         crash_props = crash_props or [self.prop, "C17"]
-        # chunk by number of scenarios to keep TLC runs bounded
-        for ci in range(0, len(blocks), chunk):
-            part = blocks[ci:ci + chunk]
+        nchunks = max(1, min(par, (len(blocks) + 3) // 4), (len(blocks) + chunk - 1) // chunk)
+        size = (len(blocks) + nchunks - 1) // nchunks
+        parts = [blocks[i:i + size] for i in range(0, len(blocks), size)]
+
+        def work(arg):
+            ci, part = arg
             txt = "".join(t for _, t in part)
-            try:
-                evs, info = pipeline.run_driver(b["qsx"], txt, self.dir, "%s_%d" % (tag, ci), crash_props, call_timeout=call_timeout, env=env)
-            except RuntimeError as e:
-                raise ToolFailure(str(e))
-            self.crashes += len(info["crashes"])
+            ctag = "%s_%d" % (tag, ci)
+            evs, info = pipeline.run_driver(b["qsx"], txt, self.dir, ctag, crash_props, call_timeout=call_timeout, env=env)
+            if inject:
+                # untrusted witnesses (verified by TLC) are inserted after the first dump of their scenario
+                out, cur, done = [], None, set()
+                for e in evs:
+                    out.append(e)
+                    if e["call"] == "scenario":
+                        cur = e["id"]
+                    elif e["call"] == "dump" and cur in inject and cur not in done and e.get("h") == inject[cur].get("h"):
+                        out.append(dict(inject[cur]))
+                        done.add(cur)
+                evs = out
             pipeline.renumber(evs)
-            try:
-                summ, verdicts = pipeline.validate(evs, self.dir, "%s_%d" % (tag, ci), spec=spec)
-            except RuntimeError as e:
-                raise ToolFailure(str(e))
+            summ, verdicts = pipeline.validate(evs, self.dir, ctag, spec=spec, heap="3g")
+            return part, evs, info, summ, verdicts
+
+        try:
+            with ThreadPoolExecutor(min(par, len(parts))) as ex:
+                results = list(ex.map(work, enumerate(parts)))
+        except RuntimeError as e:
+            raise ToolFailure(str(e))
+        for part, evs, info, summ, verdicts in results:
+            self.crashes += len(info["crashes"])
             self.traces += summ["cnt"].get("scenarios", 0)
             self.events += len(evs)
             self.tlc_trace_states += summ.get("tlc_states", 0)
             for k, v in summ["cnt"].items():
                 self.cnt[k] = self.cnt.get(k, 0) + v
-            # attach scenario ids
-            sid_at = []
-            cur = None
+            sid_at, cur = [], None
             for e in evs:
                 if e["call"] == "scenario":
                     cur = e["id"]
@@ -136,11 +156,13 @@ class Ctx:
                 v["scen_text"] = byid.get(sid, "")
                 v["variant"] = variant
                 v["event"] = evs[v["n"] - 1] if 0 < v["n"] <= len(evs) else {}
+                if inject and sid in inject:
+                    v["witness"] = inject[sid]
                 if "INCONCLUSIVE" in v["props"]:
                     self.inconclusive += 1
                 self.verdicts.append(v)
-            if not self.samples and evs:
-                self.samples.append({"scenario": part[0][0], "script": part[0][1][:1500]})
+            if len(self.samples) < 3 and evs:
+                self.samples.append({"scenario": part[0][0], "script": part[0][1][:1200]})
         return
 
 
@@ -208,7 +230,7 @@ def finish(ctx, level, rule, extra_cov=None, assumptions=None):
             f.write(v.get("scen_text") or "")
         with open(path + ".json", "w") as f:
             json.dump(dict(property=prop, n=v["n"], call=v["call"], why=v["why"], scenario=v.get("scenario"),
-                           variant=v.get("variant"), event=v.get("event")), f, indent=1)
+                           variant=v.get("variant"), event=v.get("event"), witness=v.get("witness")), f, indent=1)
         lines.append("VIOLATION property=%s replay=%s" % (prop, path))
         lines.append("  at event %s (%s) of scenario %s: %s" % (v["n"], v["call"], v.get("scenario"), v["why"][:600]))
     # prune old replays
